@@ -142,9 +142,14 @@ class ConfigList(ComposedNode, list):
 
     @namespace('ayns')
     def on_merge_impl(self, prefix, other):
-        if isinstance(other, dict) and not other.ayns.delete:
-            # (the keys of a mapping which merges into the list have to name existing elements;
-            # a deleting mapping - "!del {..}", a function node - replaces the list like any other deleting node)
+        replaces = False
+        if isinstance(other, dict) and other.ayns.delete:
+            # a deleting mapping - "!del {..}", a function node - replaces the list like any other deleting node,
+            # unless something in the list outranks it and stays: then its keys can only be positions again
+            replaces = not any(node.ayns.has_priority_over(other) for node in self.ayns.nodes(include_self=False))
+
+        if isinstance(other, dict) and not replaces:
+            # (the keys of a mapping which merges into the list have to name existing elements)
             _missing_keys = []
             for key in other.ayns.children_names():
                 first_missing = None
@@ -157,7 +162,7 @@ class ConfigList(ComposedNode, list):
             if _missing_keys:
                 raise MergeError(f'merging a dict into a list requires all dict nodes to map to the existing indices in the list but the following keys are invalid: {_missing_keys}', node=self, path=prefix, extra_node=first_missing)
 
-        if isinstance(other, ComposedNode) and not (isinstance(other, dict) and other.ayns.delete):
+        if isinstance(other, ComposedNode) and not replaces:
             # (the keys of a deleting mapping are not positions in this list, nothing of it competes with the elements)
             # a deleting element of "other" which is outranked by the element it would replace (or by this list,
             # if it would be appended) has no effect at all, drop it together with everything below it; whatever
